@@ -73,6 +73,10 @@ func (node *Node) processBlocks(ctx context.Context) error {
 					header.BlockHash().String(), err)
 				return err
 			}
+
+			// The block was not added, so the last hash has to go back to the top of the chain or
+			// the headers that replace it will never link.
+			node.state.SetLastHash(*node.blocks.LastHash())
 		}
 
 		// Request more blocks if necessary
